@@ -423,6 +423,25 @@ def _index_ok(ctx, p, b, fn, bi, base, idx):
         return True
     if _is_marker(base):
         return 'inv', 'marker vector sized to the roadmap; indices are roadmap indices (C18.bfs)'
+    # index is a parameter of a private helper: every call site must pass an iteration index
+    if idx and all(n[0] == 'param' for n in idx) and not b.is_pub and b.kind in ('AssocFn', 'Fn'):
+        sites = 0
+        good = True
+        for cb in ctx.lib_bodies(b.crate):
+            cfn = ctx.fn(cb)
+            for cbi, ct in cb.calls():
+                if ct['func'].get('path') != b.path:
+                    continue
+                sites += 1
+                for n in idx:
+                    a = cfn.arg_terms(ct, n[1] - 1, cbi)
+                    ok_a = P.iter_source(a) is not None or \
+                        (a and all(q[0] == 'param' and cb.kind == 'Closure' for q in a)) or \
+                        (a and all(q[0] == 'field' and q[2] == '0' and P.iter_source(q[1]) is not None for q in a))
+                    if not ok_a:
+                        good = False
+        if sites and good:
+            return 'inv', 'index parameter of a private helper; all %d call sites pass an iteration index' % sites
     if idx == T(('const', '0')):
         # first element of a list: start_states[0]
         facts_nonempty = False
